@@ -41,8 +41,10 @@ def parse_harnesses(path):
     return out
 
 
-def prepare_scratch(tag, repo='/repo'):
-    """Fresh copy of the working tree (no target/, no .git) with hooks + harness files."""
+def prepare_scratch(tag, repo='/repo', crates=None):
+    """Fresh copy of the working tree (no target/, no .git) with hooks + harness files.
+    crates: E11 blocks are generated (and may raise ExtractError) only for these crates; the harness modules of the other
+    crates are replaced by an empty stub so that an anchor lost in an unrelated crate cannot disturb this run."""
     base = os.path.join(WORK, tag)
     dst = os.path.join(base, 'repo')
     os.makedirs(base, exist_ok=True)
@@ -59,7 +61,9 @@ def prepare_scratch(tag, repo='/repo'):
                 f.write('\n' + h['hook_line'] + '\n')
             applied.append('%s: hook appended in scratch copy (missing in working tree)' % h['root'])
         srcp = os.path.join(VERIF, h['harness_src'])
-        if os.path.exists(srcp):
+        if crates is not None and h['crate'] not in crates:
+            open(os.path.join(cdir, h['harness_dst']), 'w').write('// harnesses of this crate are not part of this run\n')
+        elif os.path.exists(srcp):
             shutil.copy(srcp, os.path.join(cdir, h['harness_dst']))
             _, notes = kblocks.generate(os.path.dirname(srcp), dst, h['crate_dir'])
             for n in notes:
